@@ -1,6 +1,10 @@
 package main
 
 import (
+	"go.amzn.com/verifharness/vh"
+	"time"
+	"fmt"
+	"bytes"
 	"strings"
 )
 
@@ -54,6 +58,17 @@ func genC15(tier string, seed int64) []Case {
 			}
 		}
 	}
+	// the standalone front end's sequence (reserve / invoke / wait until release, then reset with reason "failure"):
+	// the only way an invoke-runtime-done with an error status is emitted
+	for _, who := range []string{"rt", "ext"} {
+		for _, when := range []string{"idle", "during"} {
+			for _, code := range []int32{0, 3} {
+				who, when, code := who, when, code
+				id := fmt.Sprintf("C15/standalone/%s/%s/c%d", who, when, code)
+				cases = append(cases, Case{ID: id, Class: "standalone", Desc: map[string]interface{}{"who": who, "when": when, "exit": code}, Timeout: 60 * time.Second, Run: func(c *Ctx) { runC15Standalone(c, who, when, code) }})
+			}
+		}
+	}
 	take("C05", pick(3, 1))
 	take("C09", pick(4, 1))
 	take("C03", pick(40, 12))
@@ -62,4 +77,84 @@ func genC15(tier string, seed int64) []Case {
 	take("C01", pick(6, 3))
 	take("C10", pick(2, 1))
 	return cases
+}
+
+func runC15Standalone(c *Ctx, who, when string, code int32) {
+	w, err := NewWorld(vh.Config{TimeoutMs: 3000, Extensions: []string{"ext0"}})
+	if err != nil {
+		c.Inconclusive("harness: " + err.Error())
+		return
+	}
+	defer w.Close()
+	w.RtPlan = func(gen int, p *vh.Proc) vh.ExecPlan {
+		return vh.ExecPlan{Behave: w.RtLoop(RtOpts{Handle: func(p *vh.Proc, pt *vh.Party, n int, ev *vh.Resp) *vh.Exit {
+			if gen == 1 && bytes.Equal(ev.Body, []byte("doomed")) {
+				if who == "rt" && when == "during" {
+					return &vh.Exit{Code: code}
+				}
+				// somebody else is (or was) the fault: never answer this one
+				return Stall(p)
+			}
+			pt.Respond(ev.ReqID(), EchoBody(ev.Body), nil)
+			return nil
+		}})}
+	}
+	w.ExtPlan = func(base string, gen int, p *vh.Proc) vh.ExecPlan {
+		o := ExtOpts{Events: []string{"INVOKE", "SHUTDOWN"}}
+		if gen == 1 && who == "ext" && when == "during" {
+			seen := 0
+			o.OnEvent = func(p *vh.Proc, pt *vh.Party, n int, ev *vh.Resp) *vh.Exit {
+				if parseExtEvent(ev.Body).EventType == "INVOKE" {
+					seen++
+					if seen == 2 {
+						return &vh.Exit{Code: code}
+					}
+				}
+				return nil
+			}
+		}
+		return vh.ExecPlan{Behave: w.ExtLoop(o)}
+	}
+	w.E.Init()
+	first := w.E.InvokeAsync([]byte("healthy"), vh.InvokeOpts{})
+	if !first.Wait(8*time.Second) || first.Err != nil {
+		c.Inconclusive("harness: healthy first invocation failed")
+		return
+	}
+	for dl := time.Now().Add(3 * time.Second); time.Now().Before(dl) && (w.E.RuntimeState() != "Ready" || w.E.ExtState("ext0") != "Ready"); {
+		time.Sleep(200 * time.Microsecond)
+	}
+	if when == "idle" {
+		var p *vh.Proc
+		if who == "rt" {
+			p = w.E.WaitRuntime(1, time.Second)
+		} else {
+			p = w.E.WaitExt("ext0", 1, time.Second)
+		}
+		if p == nil {
+			c.Inconclusive("harness: process not found")
+			return
+		}
+		p.RequestExit(vh.Exit{Code: code})
+		for dl := time.Now().Add(3 * time.Second); time.Now().Before(dl) && p.Alive(); {
+			time.Sleep(200 * time.Microsecond)
+		}
+		time.Sleep(10 * time.Millisecond) // the events watcher has handled the exit
+	}
+	err2, _ := w.E.StandaloneInvoke([]byte("doomed"))
+	c.Check(err2 != nil, "standalone_failure_reported", "C15/standalone/no-failure", "the doomed invocation did not fail", nil)
+	after := w.E.InvokeAsync([]byte("after"), vh.InvokeOpts{})
+	c.Check(after.Wait(8*time.Second) && after.Err == nil, "standalone_recovers", "C15/standalone/no-recovery", "the invocation after the failure reset did not succeed", vh.ErrName(after.Err))
+	n := 0
+	for _, e := range w.E.Log.Snapshot() {
+		if e.Src == "events" && e.Op == "InvokeRuntimeDone" && e.Extra["status"] != "success" {
+			n++
+		}
+	}
+	c.Check(n == 1, "error_runtime_done_emitted", fmt.Sprintf("C15/standalone/error-runtime-done-count/%d", n), "the failure reset did not emit exactly one invoke-runtime-done with an error status", nil)
+	lifecycleOracle(c, w)
+	c.SetTrace(fmt.Sprintf("standalone/%s/%s/%d", who, when, code), true)
+	if c.WantSample || c.Violated() {
+		c.SetSample(sampleLog(w, 140))
+	}
 }
